@@ -125,12 +125,14 @@ CLAIMED = {
          "numberOfHMetrics the compiler chose returns every glyph's metrics; that count is minimal) and of loca (round trip; the short format "
          "is chosen exactly when every offset is even and below 0x20000) and of the simple-glyph point data of glyf (flag stream with repeat "
          "runs, zero/short/word coordinate forms: compileDeltasGreedy then decompileCoordinates is the identity on every non-empty point list "
-         "with int16 deltas), for all metric/offset/point lists. Tied to the table classes by byte-exact "
-         "correspondence incl. malformed data for the decoder. The remaining codecs (cmap 0/2/4/6/12/13/14, simple glyphs with every flag/"
+         "with int16 deltas), and of cmap formats 12 and 13 (sort, run detection, group records, header with its length checks, group "
+         "expansion, the character map built from it: the compiled subtable decodes to the same map sorted by code with glyph 0 meaning "
+         "not mapped; the run-length grouping loses nothing for ANY pair list), for all metric/offset/point lists and character maps. Tied to "
+         "the table classes by byte-exact correspondence incl. malformed data for the decoders. The remaining codecs (cmap 0/2/4/6/14, simple glyphs with every flag/"
          "repeat pattern and both coordinate compilers, components, whole glyf/loca tables around the 0x20000 limit with every padding, gvar "
          "tuple variations with 1..300 explicit points, name, kern) are implementation round-trip sweeps on generated contents (testing). "
-         "Known finding F7 (empty cmap 12/13).",
-         "Rocq proof of hmtx/loca codec round trips + byte-exact correspondence + generated-content round-trip sweeps"),
+         "F7 (empty cmap 12/13) repaired by a fix: commit.",
+         "Rocq proof of hmtx/loca/glyf-points/cmap12-13 codec round trips + byte-exact correspondence + generated-content round-trip sweeps"),
  "C03": ("Theorems over the Gallina transcription of the TTX text layer: escape / escapeattr followed by a specification-level XML "
          "un-escaper return every string of legal XML characters (attribute values up to exactly the TAB/LF->space normalisation the property "
          "allows), by induction over the string; hexStr/deHexStr round-trip every byte string. The transcriptions AND the specification-level "
